@@ -157,7 +157,7 @@ func runC10(c *ctx) error {
 	base.Patches = []string{"replace", "add-public-keys", "remove-public-keys", "add-services", "remove-services", "ietf-json-patch"}
 	nDID := 2
 	if c.tier == "thorough" {
-		nDID = 40
+		nDID = 6 // ~20,000 cases per DID in this tier (every mutation x every entry point, boundary configurations on a quarter of them)
 	}
 	originOK := func(interface{}) bool { return true }
 	for di := 0; di < nDID; di++ {
@@ -196,7 +196,7 @@ func runC10(c *ctx) error {
 					cfgs = append(cfgs, c10cfg{name, p})
 				}
 				mkc("base", func(p *protocol.Protocol) {})
-				if !strings.Contains(label, "+") || c.tier == "thorough" {
+				if !strings.Contains(label, "+") || (c.tier == "thorough" && len(label)%4 == 0) {
 					mkc("opsize=len", func(p *protocol.Protocol) { p.MaxOperationSize = uint(len(req)) })
 					mkc("opsize=len-1", func(p *protocol.Protocol) { p.MaxOperationSize = uint(len(req) - 1) })
 					dl := canonicalDeltaLen(req)
